@@ -32,7 +32,7 @@ ASSUMPTIONS = ["positions are judged only for the simulated (cleanly encoded) ai
                "longitude compared modulo 360; error measured as great-circle angle"]
 REQUIRED = ["calls", "transitions", "branch_ref", "branch_global", "branch_none", "evicted", "reappeared", "commb_attached", "commb_unknown_ignored",
             "surface_update", "airborne_update", "case_compare", "run_loop", "gap_lt10", "gap_10_180", "gap_gt180", "cross_antimeridian",
-            "cross_equator", "cross_nl"]
+            "cross_equator", "cross_nl", "second_tracker_alive"]
 
 
 def get_decode():
@@ -274,6 +274,10 @@ def play(ctx, hist, lower=False, judge=True):
             shutil.rmtree(dump, ignore_errors=True)
 
 
+def radsb_tc19_any(rng):
+    return (19 << 51) | (1 << 48) | rng.getrandbits(48)
+
+
 def _play(ctx, hist, d, lower, judge):
     rng = ctx.rng
     ev = hist["events"]
@@ -316,6 +320,14 @@ def _play(ctx, hist, d, lower, judge):
                         pre[addr] = "pair_or_none"
                     else:
                         pre[addr] = "none"
+        if judge and hist.get("decoy"):
+            # another tracker of the same process (a second receiver) hears different aircraft in between: none of its business
+            dd = hist.setdefault("_decoy_obj", get_decode()(latlon=hist["rx"]) if hist["rx"] else get_decode()())
+            drng = _r.Random(k * 7919 + 13)       # its own generator: the batching of the history under test must not change
+            a_ = drng.getrandbits(24)
+            call(dd.process_raw, [tnow, tnow + 0.1], ["%028X" % bits.es_frame(17, 5, a_, (4 << 51) | drng.getrandbits(48)),
+                                                      "%028X" % bits.es_frame(17, 5, a_ ^ 1, radsb_tc19_any(drng))], [tnow], ["%028X" % bits.commb_frame(20, 0, drng.getrandbits(56), a_)], tnow + 0.2)
+            ctx.hit("second_tracker_alive")
         r = call(d.process_raw, at, am, ct, cm, tnow)
         ctx.ev()
         if r[0] != "ok":
@@ -427,6 +439,7 @@ def m_history(ctx, case):
     hist = gen_history(hrng, case.get("scen"), case.get("window", False))
     if case.get("batch"):
         hist["batch"] = case["batch"]
+    hist["decoy"] = (case["hseed"] % 4 == 1)
     hist["dumpto"] = (case["hseed"] % 10 == 3)   # one history in ten also writes the CSV dump (robustness of that path)
     ev = hist["events"]
     gaps = [b[0] - a[0] for a, b in zip(ev, ev[1:])]
